@@ -470,7 +470,13 @@ func c04Child(t *testing.T, scenarioFile string) {
 	case "lru":
 		c04ChildLRU(sc, col)
 	case "index", "grpc":
-		if err := c04ChildIndex(sc, col, t.TempDir()); err != nil {
+		// data lives below the parent's temp dir: a child aborted by the race detector cannot clean up itself
+		dataDir, err := os.MkdirTemp(os.Getenv("VERIF_C04_DIR"), "child-")
+		if err != nil {
+			col.res.HarnessErr = err.Error()
+			return
+		}
+		if err := c04ChildIndex(sc, col, dataDir); err != nil {
 			col.res.HarnessErr = err.Error()
 		}
 	default:
@@ -529,7 +535,7 @@ func c04RunScenario(dir string, n int, sc c04Scenario, timeout time.Duration) (*
 		}
 		env = append(env, e)
 	}
-	cmd.Env = append(env, "VERIF_C04_CHILD="+scFile, "VERIF_C04_RESULT="+resFile, "GORACE=halt_on_error=1 exitcode=66 atexit_sleep_ms=0")
+	cmd.Env = append(env, "VERIF_C04_CHILD="+scFile, "VERIF_C04_RESULT="+resFile, "VERIF_C04_DIR="+dir, "GORACE=halt_on_error=1 exitcode=66 atexit_sleep_ms=0")
 	var out bytes.Buffer
 	cmd.Stdout, cmd.Stderr = &out, &out
 	cmd.WaitDelay = 2 * time.Second
@@ -647,9 +653,6 @@ func TestVerifHarnessC04(t *testing.T) {
 		return
 	}
 
-	type plan struct {
-		sc c04Scenario
-	}
 	var plans []c04Scenario
 	add := func(sc c04Scenario) {
 		if sc.Rows == 0 && sc.Kind != "lru" {
@@ -657,7 +660,7 @@ func TestVerifHarnessC04(t *testing.T) {
 		}
 		plans = append(plans, sc)
 	}
-	g, it := 8, 150
+	g, it := 8, 200
 	if bound == "thorough" {
 		it = 400
 	}
@@ -672,6 +675,11 @@ func TestVerifHarnessC04(t *testing.T) {
 	add(c04Scenario{Kind: "index", Cache: "lru", Capacity: 2000, Goroutines: g, Iterations: it, Seed: seed})
 	add(c04Scenario{Kind: "index", Cache: "lru", Capacity: 1 << 26, Preload: true, Goroutines: g, Iterations: it, Seed: seed})
 	add(c04Scenario{Kind: "index", Cache: "lru", Capacity: 0, Goroutines: 2, Iterations: it, Seed: seed})
+	add(c04Scenario{Kind: "lru", Capacity: 400, Goroutines: 2, Iterations: 4 * it, Seed: seed + 1})
+	add(c04Scenario{Kind: "lru", Capacity: 100, Goroutines: 32, Iterations: it, Seed: seed + 1})
+	add(c04Scenario{Kind: "index", Cache: "lru", Capacity: 30000, Goroutines: 32, Iterations: it / 2, Seed: seed + 1})
+	add(c04Scenario{Kind: "index", Cache: "lru", Capacity: 1 << 26, Preload: true, Goroutines: 2, Iterations: 2 * it, Seed: seed + 1})
+	add(c04Scenario{Kind: "grpc", Preload: true, Goroutines: 16, Iterations: it / 4, Seed: seed + 1})
 	if bound == "thorough" {
 		for rep := int64(1); rep <= 3; rep++ {
 			for _, gg := range []int{2, 4, 16, 32} {
@@ -688,7 +696,6 @@ func TestVerifHarnessC04(t *testing.T) {
 			}
 		}
 	}
-	_ = plan{}
 
 	budget := 16 * time.Second
 	if bound == "thorough" {
@@ -715,5 +722,5 @@ func TestVerifHarnessC04(t *testing.T) {
 		t.Logf("scenario %d ok after %v: %s", i, time.Since(start), sc.describe())
 	}
 	boundText = fmt.Sprintf("%d of %d planned scenarios, each in its own race-instrumented child process (cases = scenarios, distinct_nontrivial = concurrent calls made): LRUCache Put/Get direct {tiny, ample}; Index.Execute/GetSchema x {no cache, LRU 0/2000/30000/64MiB} x {on-demand, preloaded}; gRPC Query against serverCmd with default cache; goroutines %s; %d calls per goroutine; seed %d; schedules sampled, not enumerated",
-		ran, len(plans), map[string]string{"quick": "8 (2 for capacity 0)", "thorough": "2,4,8,16,32"}[bound], it, seed)
+		ran, len(plans), map[string]string{"quick": "2,8,16,32", "thorough": "2,4,8,16,32"}[bound], it, seed)
 }
